@@ -12,10 +12,10 @@ namespace AV.Props.C09
 open AV Pub
 
 def LockClean (re : Bool) (p : Prog α) : Prop :=
-  ∀ (env : Env) (n : Nat), ∃ held, (lockMonG re true).runTrace [] (run p env n).1 = some held ∧
+  ∀ (env : Env) (n : Nat), ∃ held, (lockMonG re true anyPayload).runTrace [] (run p env n).1 = some held ∧
     ((run p env n).2.isPanic = false → held = [])
 
-theorem clean_of_ok {re : Bool} {p : Prog α} (h : LockOK re true [] p) : LockClean re p := by
+theorem clean_of_ok {re : Bool} {p : Prog α} (h : LockOK re true anyPayload [] p) : LockClean re p := by
   intro env n
   obtain ⟨s', h1, h2⟩ := SafeP.sound h env n
   refine ⟨s', h1, fun hp => ?_⟩
@@ -25,10 +25,10 @@ theorem clean_of_ok {re : Bool} {p : Prog α} (h : LockOK re true [] p) : LockCl
 /-! #### full discipline (including "never locked again while held") -/
 
 theorem postOutbox (F : TFacts) (cfg : BaseCfg) (r : Request) : LockClean true (postOutboxScheme F cfg r) :=
-  clean_of_ok (postOutboxScheme_ok F cfg r)
+  clean_of_ok (postOutboxScheme_ok F cfg r (fun _ => rfl))
 
 theorem send (F : TFacts) (cfg : BaseCfg) (outbox : Iri) (t : J) : LockClean true (Pub.send F cfg outbox t) :=
-  clean_of_ok (send_ok F cfg outbox t)
+  clean_of_ok (send_ok F cfg outbox t (fun _ => rfl))
 
 theorem getInbox (F : TFacts) (cfg : BaseCfg) (r : Request) : LockClean true (getInboxH F cfg r) :=
   clean_of_ok (getInboxH_ok F cfg r)
@@ -40,7 +40,7 @@ theorem handler (F : TFacts) (r : Request) : LockClean true (Pub.handler F r) :=
 /-- the inbox side effects proper (inbox entry, all twelve default callbacks incl. the automatic
 Accept/Reject delivery) -/
 theorem postInbox_sideEffects (F : TFacts) (inbox : Iri) (a : J) : LockClean true (Pub.postInbox F (fedCbFull F) inbox a) :=
-  clean_of_ok (postInbox_ok F inbox a)
+  clean_of_ok (postInbox_ok F inbox a (fun _ => rfl))
 
 /-! #### the inbox POST including inbox forwarding: balance, no stray Unlock, access under lock -/
 
@@ -48,7 +48,7 @@ theorem postInbox_partial (F : TFacts) (cfg : BaseCfg) (r : Request) : LockClean
   clean_of_ok (postInboxScheme_ok F cfg r)
 
 theorem inboxForwarding_partial (F : TFacts) (box : Iri) (a : J) : LockClean false (Pub.inboxForwarding F box a) :=
-  clean_of_ok (inboxForwarding_ok F box a)
+  clean_of_ok (inboxForwarding_ok F box a rfl)
 
 /-! #### the full statement fails for inbox forwarding (recorded finding C09-fwd-relock)
 
